@@ -366,6 +366,10 @@ impl WalManager {
     ///
     /// Returns an error if rotation fails.
     pub fn rotate(&self) -> Result<()> {
+        // Hold the log lock for the whole switch: sequence numbers must be handed out in the
+        // order in which the files become active, or two concurrent rotations leave the
+        // lower-numbered file active and recovery replays later records first
+        let mut guard = self.active_log.lock();
         let new_sequence = self.current_sequence.fetch_add(1, Ordering::SeqCst) + 1;
         let new_path = self.log_path(new_sequence);
 
@@ -383,7 +387,6 @@ impl WalManager {
         };
 
         // Replace active log
-        let mut guard = self.active_log.lock();
         if let Some(mut old_log) = guard.take() {
             // Ensure old log is flushed and durable: records in the new file must never
             // survive a crash that loses records of the file before it
